@@ -53,11 +53,26 @@ func zzH_C18_queue_revoke()   { zzC18Queue(3, -1) }
 func zzH_C18_queue_expire()   { zzC18Queue(4, -1) }
 func zzH_C18_queue_results()  { zzC18Queue(5, -1) }
 
+// a result window smaller than the scheduled range: reservations must stop at the window
+// (empty blocks included) and the range still completes as the importer drains results
+func zzH_C18_queue_window() {
+	zzC18Window, zzC18Headers, zzC18Ops, zzC18MaxCount, zzC18AnyBody = 2, 4, 2, 4, true
+	zzC18Queue(0, 0)
+}
+
+var (
+	zzC18Window, zzC18Headers, zzC18Ops, zzC18MaxCount = 6, 0, 0, 2
+	zzC18AnyBody                                       = false
+)
+
 func zzC18Queue(firstOp, firstPeer int) {
 	n := zzverif.Bound("headers", 2, 3)
 	ops := zzverif.Bound("queueOps", 3, 5)
+	if zzC18Headers > 0 {
+		n, ops = zzC18Headers, zzC18Ops
+	}
 	q := newQueue()
-	q.resultCache = make([]*fetchResult, 6) // a small window instead of 8192 slots (same code paths)
+	q.resultCache = make([]*fetchResult, zzC18Window) // a small window instead of 8192 slots (same code paths)
 	const origin = 10
 	q.Prepare(origin, FullSync)
 	var headers []*types.Header
@@ -66,8 +81,11 @@ func zzC18Queue(firstOp, firstPeer int) {
 	for i := 0; i < n; i++ {
 		b := zzverif.U8("body")
 		zzverif.Assume(b <= 2) // 0 = empty block, 1..2 = two different non-empty bodies
-		if i > 0 && !zzverif.Thorough() {
+		if i > 0 && !zzverif.Thorough() && !zzC18AnyBody {
 			zzverif.Assume(b == 1) // quick tier: only the first block may be empty
+		}
+		if zzC18AnyBody {
+			zzverif.Assume(b <= 1)
 		}
 		bodyOf[i] = b
 		h := &types.Header{Number: big.NewInt(int64(origin + i)), ParentHash: parent}
@@ -126,7 +144,8 @@ func zzC18Queue(firstOp, firstPeer int) {
 		}
 		switch op {
 		case 0: // reserve
-			q.ReserveBodies(p, zzverif.Choose("count", 2)+1)
+			_, _, rerr := q.ReserveBodies(p, zzverif.Choose("count", zzC18MaxCount)+1)
+			zzverif.Assert(rerr == nil, "reserving from a correctly scheduled range never reports an invalid chain")
 		case 1: // deliver: any number of bodies, each any body identity (right, wrong, empty)
 			req := q.blockPendPool[p.id]
 			cnt := zzverif.Choose("delivered", 3)
@@ -168,7 +187,8 @@ func zzC18Queue(firstOp, firstPeer int) {
 		q.Revoke(pc.id)
 	}
 	for round := 0; round < n+1 && released < n; round++ {
-		req, _, _ := q.ReserveBodies(honest, n)
+		req, _, rerr := q.ReserveBodies(honest, n)
+		zzverif.Assert(rerr == nil, "reserving from a correctly scheduled range never reports an invalid chain")
 		if req != nil {
 			var lists [][]*types.Transaction
 			for _, h := range req.Headers {
